@@ -18,6 +18,7 @@ import (
 	"net"
 	"net/netip"
 	"os"
+	"path/filepath"
 	"strings"
 	"sync"
 	"syscall"
@@ -108,6 +109,7 @@ type polCase struct {
 	Autoconf0  bool   `json:"autoconf_initial"`
 	StateFails []int  `json:"state_failures,omitempty"` // per State call, consumed in order: 0 none 1 permission 2 not-exist 3 other
 	RealDial   bool   `json:"real_dial"`                // C11: DialFunc is the real dial() with fake OS callees
+	RealState  bool   `json:"real_state,omitempty"`     // C11 (sysctl part): the State is the real NewState(); its file reads and writes go to a simulated /proc/sys
 }
 
 type polEvent struct {
@@ -262,6 +264,9 @@ type polHost struct {
 	conns    []*vkNDPConn
 	script   func(stage string) error // failure of lookup / check / dialNDP for the current attempt
 	dialLatency time.Duration
+	procRoot string // real-state mode: directory standing in for /proc/sys/net/ipv6/conf
+	procEnd  string // content of eth0/autoconf when Dial had returned
+	badIO    []string
 }
 
 func (h *polHost) now() time.Duration { return time.Since(h.t0) }
@@ -307,6 +312,78 @@ func (s polState) SetIPv6Autoconf(iface string, v bool) error {
 	}
 	s.h.autoconf = v
 	s.h.logf("set-autoconf(%v)", v)
+	return nil
+}
+
+// --- simulated /proc/sys for the real State (sysctl part of C11) -------------------
+
+const vkProcPrefix = "/proc/sys/net/ipv6/conf/"
+
+// vkSysctlPath maps the path the code computed to the scratch directory and
+// records anything that is not <prefix>/<interface>/<key>.
+func vkSysctlPath(file string) (real, iface, key string) {
+	h := vkHost
+	rest, ok := strings.CutPrefix(file, vkProcPrefix)
+	parts := strings.Split(rest, "/")
+	if !ok || len(parts) != 2 || parts[0] == "" || strings.Contains(rest, "..") {
+		h.badIO = append(h.badIO, fmt.Sprintf("path %q is not %s<interface>/<key>", file, vkProcPrefix))
+		return filepath.Join(h.procRoot, "invalid"), "", ""
+	}
+	return filepath.Join(h.procRoot, parts[0], parts[1]), parts[0], parts[1]
+}
+
+// vkReadSysctl stands in for os.ReadFile in interface_linux.go.
+func vkReadSysctl(file string) ([]byte, error) {
+	h := vkHost
+	h.mu.Lock()
+	defer h.mu.Unlock()
+	real, _, key := vkSysctlPath(file)
+	if key == "autoconf" {
+		if err := h.fail(); err != nil {
+			h.logf("get-autoconf fails: %v", err)
+			return nil, err
+		}
+	}
+	b, err := os.ReadFile(real)
+	if key == "autoconf" {
+		if err != nil {
+			h.logf("get-autoconf fails: %v", err)
+		} else {
+			h.logf("get-autoconf -> %v", string(b) == "1\n")
+		}
+	}
+	return b, err
+}
+
+// vkWriteSysctl stands in for os.WriteFile in interface_linux.go: like the kernel
+// it accepts an integer with optional trailing newline and reads back "N\n".
+func vkWriteSysctl(file string, data []byte, _ os.FileMode) error {
+	h := vkHost
+	h.mu.Lock()
+	defer h.mu.Unlock()
+	real, _, key := vkSysctlPath(file)
+	v := strings.TrimSuffix(string(data), "\n")
+	if key != "autoconf" {
+		h.badIO = append(h.badIO, fmt.Sprintf("write of %q to %s: only autoconf is ever to be written", data, file))
+		return nil
+	}
+	if v != "0" && v != "1" {
+		h.badIO = append(h.badIO, fmt.Sprintf("write of %q to %s: not 0 or 1", data, file))
+		return &os.PathError{Op: "write", Path: file, Err: syscall.EINVAL}
+	}
+	if err := h.fail(); err != nil {
+		h.logf("set-autoconf(%v) fails: %v", v == "1", err)
+		return err
+	}
+	if _, err := os.Stat(real); err != nil {
+		h.logf("set-autoconf(%v) fails: %v", v == "1", err)
+		return err // /proc files cannot be created
+	}
+	if err := os.WriteFile(real, []byte(v+"\n"), 0o644); err != nil {
+		return err
+	}
+	h.autoconf = v == "1"
+	h.logf("set-autoconf(%v)", v == "1")
 	return nil
 }
 
@@ -397,7 +474,31 @@ func polExecute(t *testing.T, c polCase) polRun {
 		if c.Mode == int(Monitor) {
 			mode = Monitor
 		}
-		d := NewDialer("eth0", polState{h}, mode, log.New(io.Discard, "", 0))
+		var state State = polState{h}
+		if c.RealState && (!strings.Contains(os.Getenv("VERIF_PATCHES"), "sysctl-write") || strings.Contains(os.Getenv("VERIF_NOPATCH"), "sysctl")) {
+			panic("verif: real-state case in a stage whose sysctl primitives are not simulated (it would touch the sandbox's own /proc/sys)")
+		}
+		if c.RealState {
+			// the real system state; its two file primitives are renamed (staged copy) to
+			// vkReadSysctl / vkWriteSysctl, which act like the kernel on a scratch directory
+			root, err := os.MkdirTemp("", "verif-proc-")
+			if err != nil {
+				panic("verif: " + err.Error())
+			}
+			defer func() {
+				b, err := os.ReadFile(filepath.Join(root, "eth0", "autoconf"))
+				h.mu.Lock()
+				h.procEnd = fmt.Sprintf("%q %v", b, err)
+				h.mu.Unlock()
+				os.RemoveAll(root)
+			}()
+			h.procRoot = root
+			_ = os.MkdirAll(filepath.Join(root, "eth0"), 0o755)
+			_ = os.WriteFile(filepath.Join(root, "eth0", "autoconf"), []byte(map[bool]string{true: "1\n", false: "0\n"}[c.Autoconf0]), 0o644)
+			_ = os.WriteFile(filepath.Join(root, "eth0", "forwarding"), []byte("1\n"), 0o644)
+			state = NewState()
+		}
+		d := NewDialer("eth0", state, mode, log.New(io.Discard, "", 0))
 		k := 0
 		var tr polTrace
 		var mu sync.Mutex
@@ -776,6 +877,15 @@ func c11Oracle(c polCase, run polRun) error {
 	fail := func(sig, format string, a ...any) error {
 		return verifkit.Violf(sig, fmt.Sprintf(format, a...)+"\nscript %v state-failures %v mode=%d autoconf0=%v result=%v\n%s", c.Script, c.StateFails, c.Mode, c.Autoconf0, run.Err, logtxt)
 	}
+	if len(h.badIO) > 0 {
+		return fail("C11/sysctl-io", "unexpected sysctl access: %v", h.badIO)
+	}
+	if h.procRoot != "" {
+		// the simulated kernel's final value is what the file says
+		if want := fmt.Sprintf("%q %v", map[bool]string{true: "1\n", false: "0\n"}[h.autoconf], nil); h.procEnd != want {
+			return fail("C11/sysctl-io", "autoconf file holds %s but the last successful write was %v", h.procEnd, h.autoconf)
+		}
+	}
 	open := -1          // connection currently open (-1 none)
 	inTask := false
 	var prev *bool      // value read at the current dial
@@ -936,6 +1046,31 @@ func c11Enumerate(depth int) func(yield func(polCase) bool) {
 	}
 }
 
+// TestVerif_C11sysctl: the same executions with the real system.NewState() and
+// interface_linux.go on a simulated /proc/sys (file paths, file contents, error
+// classes of real file I/O) instead of the recording State.
+func TestVerif_C11sysctl(t *testing.T) {
+	k := verifkit.Start(t, "C11")
+	if os.Getenv("VERIF_NOPATCH") != "" {
+		k.Skip("the sysctl primitives could not be renamed in the staged copy: " + os.Getenv("VERIF_NOPATCH"))
+		t.Skip("stage patch not applied")
+	}
+	base := c11Prop(t, k)
+	prop := func(c polCase) error {
+		c.RealState = true
+		return base(c)
+	}
+	k.Regress(t, func(sub string, raw json.RawMessage) error {
+		if !strings.HasPrefix(sub, "sysctl") {
+			return nil
+		}
+		return verifkit.Decode(raw, prop)
+	})
+	verifkit.Enumerate(k, t, "sysctl-executions-depth<=3-x-state-failures", true, c11Enumerate(3), prop)
+	verifkit.Enumerate(k, t, "sysctl-many-recovery-rounds", true, polManyCycles(true), prop)
+	verifkit.Rapid(k, t, "sysctl-random-sequences-x-state-failures", k.N(1500, 200000), polGen(true), prop)
+}
+
 func TestVerif_C11(t *testing.T) {
 	k := verifkit.Start(t, "C11")
 	if os.Getenv("VERIF_NOPATCH") != "" {
@@ -943,7 +1078,12 @@ func TestVerif_C11(t *testing.T) {
 		t.Skip("stage patch not applied")
 	}
 	prop := c11Prop(t, k)
-	k.Regress(t, func(sub string, raw json.RawMessage) error { return verifkit.Decode(raw, prop) })
+	k.Regress(t, func(sub string, raw json.RawMessage) error {
+		if strings.HasPrefix(sub, "sysctl") {
+			return nil // belongs to the sysctl part
+		}
+		return verifkit.Decode(raw, prop)
+	})
 	depth := 3
 	if k.Thorough() {
 		depth = 5
